@@ -209,6 +209,53 @@ def memberValue (evalRange : Box → Arr) (row col : Nat) (p : CseIndex) : Val :
     `eval(cell_range, cell_range.address)` = fit_to_range(res) in the context of the target -/
 def evalTarget (res : Opnd) (h w : Nat) : Arr := fitToRange res h w
 
+/-! ## the array-formula context stack (excelutil.py:844-873 _ArrayFormulaContext, excelformula.py:931-933)
+
+  Every formula evaluation runs `with in_array_formula_context(cse_array_address): fit_to_range(compiled_lambda())`:
+  `__enter__` pushes the evaluation's own context (the target of an array formula, `None` for an ordinary cell) on
+  `ctx_addresses`, the lambda evaluates the formula's precedents (nested evaluations, each pushing and popping its
+  own context), `fit_to_range` reads the TOP of the stack, `__exit__` pops. -/
+
+/-- context of one evaluation: the target size of an array formula, `none` for an ordinary formula cell -/
+abbrev Ctx := Option (Nat × Nat)
+
+/-- evaluations in the order the engine performs them: a formula with context `ctx` that evaluates the formulas
+    `children` (its not-yet-computed precedents, recursively) before it is fitted, followed by `siblings` -/
+inductive Forest where
+  | nil
+  | cons (ctx : Ctx) (children : Forest) (siblings : Forest)
+
+/-- run the evaluations over the stack `ctx_addresses` (head = top); returns the stack afterwards and, for every
+    evaluation in completion order, (its own context, the context `fit_to_range` saw) -/
+def runForest : Forest → List Ctx → List Ctx × List (Ctx × Ctx)
+  | .nil, st => (st, [])
+  | .cons c children siblings, st =>
+    let r1 := runForest children (c :: st)          -- __enter__, then the precedents
+    let seen := r1.1.headD none                     -- fit_to_range: ctx_addresses[-1]
+    let r2 := runForest siblings r1.1.tail          -- __exit__, then what follows
+    (r2.1, r1.2 ++ (c, seen) :: r2.2)
+
+/-- fit_to_range under the context it sees: no context = the value is left as it is -/
+def fitCtx (seen : Ctx) (res : Opnd) : Opnd :=
+  match seen with
+  | none => res
+  | some (h, w) => .arr (fitToRange res h w)
+
+/-- a chain of `d` ordinary formula cells, each the only uncomputed precedent of the previous one -/
+def chain : Nat → Forest
+  | 0 => .nil
+  | d + 1 => .cons none (chain d) .nil
+
+/-- the context seen by an array formula with target h×w whose precedents form `k` chains of depth `d` -/
+def seenByArrayFormula (h w d k : Nat) : Ctx :=
+  let rec sibs : Nat → Forest
+    | 0 => .nil
+    | n + 1 => match chain d with
+      | .cons c ch _ => .cons c ch (sibs n)
+      | .nil => .nil
+  let r := runForest (.cons (some (h, w)) (sibs k) .nil) [none]
+  (r.2.getLast?.map (·.2)).getD none
+
 /-- a 1×1 target: `AddressRange(ref)` is a single cell, load_array_formulas stores the plain formula text there and
     the cell is evaluated like any formula cell, without fit_to_range: eval_func shows an empty scalar as 0, then
     `_evaluate` keeps `value[0][0]` of an array result (an empty element stays empty there). -/
@@ -220,6 +267,13 @@ def singleCell : Opnd → Val
 def members (res : Opnd) (r0 c0 h w : Nat) : Arr :=
   let target : Box := ⟨c0, r0, c0 + w - 1, r0 + h - 1⟩
   let evalRange : Box → Arr := fun b => if b = target then evalTarget res h w else []
+  (expandCse h w).map fun row =>
+    row.map fun p => memberValue evalRange (r0 + p.i - 1) (c0 + p.j - 1) p
+
+/-- member values when evaluating the target range yields `tgt` (whatever context the range formula was fitted in) -/
+def membersOf (tgt : Arr) (r0 c0 h w : Nat) : Arr :=
+  let target : Box := ⟨c0, r0, c0 + w - 1, r0 + h - 1⟩
+  let evalRange : Box → Arr := fun b => if b = target then tgt else []
   (expandCse h w).map fun row =>
     row.map fun p => memberValue evalRange (r0 + p.i - 1) (c0 + p.j - 1) p
 
